@@ -1778,9 +1778,18 @@ def _arange(C):
         else:
             alg[at] = TOPD if not any(is_top(c) and not c[1] for c in cs) else TOPI
     inc = step.sign == S_POS or (const_num(step) or 0) > 0
+    tags = tags_of(*vs)
+    sign = S_NONNEG if (is_nonneg(start.sign) and inc) else S_ANY
+    if const_num(step) == -1 and start.dtype in ("int", "bool") and stop.dtype in ("int", "bool"):
+        # integers counted down, A, A-1, ..., B+1: the reverse of arange(B + 1, A + 1)
+        if start.sym is not None and stop.sym is not None:
+            ln = start.sym - stop.sym
+        tags = tags | frozenset(["flip"])
+        if const_num(stop) is not None and const_num(stop) >= -1:
+            sign = S_NONNEG if const_num(stop) == -1 else S_POS
     return AV(kind=K_ARRAY, dtype=join_dtypes(vs) if join_dtypes(vs) != "bool" else "int", shape=(ln,), alg=alg,
-              sign=S_NONNEG if (is_nonneg(start.sign) and inc) else S_ANY,
-              mono=frozenset([0]) if inc else frozenset(), origin=C.fresh(), tags=tags_of(*vs),
+              sign=sign,
+              mono=frozenset([0]) if inc else frozenset(), origin=C.fresh(), tags=tags,
               indef=indef_of(*vs), f0=(start.sign == S_ZERO))
 
 
@@ -2098,7 +2107,16 @@ LIB["numpy.std"] = _reduction(alg_abs, lambda v: S_NONNEG, tag="red:std", dtype_
 LIB["numpy.var"] = _reduction(lambda a: alg_pow(a, Exp(2), 2), lambda v: S_NONNEG, tag="red:var", dtype_f=lambda v: "real")
 LIB["numpy.prod"] = _reduction(lambda a: a if a[0] in ("const", "zero") else TOPD, lambda v: v.sign if is_nonneg(v.sign) else S_ANY)
 LIB["numpy.any"] = LIB["numpy.all"] = _reduction(alg_argorder, lambda v: S_NONNEG, dtype_f=lambda v: "bool")
-LIB["numpy.count_nonzero"] = _reduction(alg_argorder, lambda v: S_NONNEG, dtype_f=lambda v: "int")
+def _alg_nonzero_count(a):
+    """how many entries are non-zero is unchanged by scaling or negating the array"""
+    if a[0] in ("zero", "const"):
+        return CONST
+    if is_top(a) or hom_form(a) is None:
+        return a
+    return HOM(0, "even")
+
+
+LIB["numpy.count_nonzero"] = _reduction(_alg_nonzero_count, lambda v: S_NONNEG, dtype_f=lambda v: "int")
 LIB["numpy.trace"] = _reduction(lambda a: a, lambda v: S_ANY)
 for _n in ("sum", "mean"):
     LIB_DOC["numpy." + _n] = "linear reduction (axis removes one dimension)"
@@ -2471,7 +2489,9 @@ def _pad(C):
     alg = {}
     pwn = as_num(pw) if pw is not None else const_av(0)
     for at in v.atoms() | cvn.atoms() | pwn.atoms():
-        c = alg_lub(v.a(at), cvn.a(at)) if constant else alg_maxred(v.a(at))
+        # 'edge' / 'reflect' / 'symmetric' / 'wrap' fill the pads with elements of the array itself: a selection, linear like the array
+        selecting = mode is not None and mode.has_const() and mode.const in ("edge", "reflect", "symmetric", "wrap")
+        c = alg_lub(v.a(at), cvn.a(at)) if constant else (v.a(at) if selecting else alg_maxred(v.a(at)))
         alg[at] = alg_weaken(c, alg_nonlinear(pwn.a(at)) if pwn.a(at)[0] not in ("const", "zero") else CONST)
     before0 = pw is not None and pw.items is not None and len(pw.items) == 2 and const_num(pw.items[0]) == 0
     return AV(kind=K_ARRAY, dtype=v.dtype, shape=(d,) if d is not None else None, alg=alg,
@@ -2500,7 +2520,14 @@ def _where(C):
                   indef=indef_of(c, a, b), f0=a.f0 and b.f0)
     rank = len(c.shape) if c.shape is not None else 1
     n = LinExpr(fresh_atom("$w"))
-    alg = {at: alg_weaken(CONST, c.a(at)) for at in c.atoms() if c.a(at)[0] not in ("const", "zero")}
+
+    def truth(at):
+        # which entries of a NUMBER array are non-zero does not change when the array is scaled or negated: x != 0  <=>  k x != 0
+        ca = c.a(at)
+        if c.dtype != "bool" and not is_top(ca) and ca[0] not in ("const", "zero") and hom_form(ca) is not None:
+            return HOM(0, "even")
+        return ca
+    alg = {at: alg_weaken(CONST, truth(at)) for at in c.atoms() if c.a(at)[0] not in ("const", "zero")}
     idx = AV(kind=K_ARRAY, dtype="int", shape=(n,), alg=alg, sign=S_NONNEG, mono=frozenset([0]) if rank == 1 else frozenset(),
              origin=C.fresh(), tags=c.tags | frozenset(["where-index"]), indef=c.indef)
     return AV(kind=K_TUPLE, items=(idx,) * rank, tags=idx.tags, indef=c.indef, alg=dict(alg))
